@@ -5,7 +5,12 @@ observations N x 1-3 draw variables of different types in ONE formula (names cho
 order, order of appearance and order of type names all differ) with deterministic user generators
 (each a distinct arithmetic pattern, logging what it produced), plus the native types under non-zero
 seeds (reproducibility across two fresh processes); Integrate against closed forms / an independent
-quadrature; Derive against hyper-dual derivatives.
+quadrature; Derive against hyper-dual derivatives.  Histories on one live model (log likelihood + simulated
+formula, each a Monte-Carlo integral over its own draw variables, N != R and N == R): every sequence up to the
+depth bound of Database.remove (first / last observation), Database.scale_column, Database.add_column, another
+Monte-Carlo formula evaluated alone with R + 1 draws, a second live model with R + 1 draws on the same database,
+and the observations simulate / calculate_likelihood / calculate_likelihood_and_derivatives, each compared with
+the mean over the model's own R draws for the observations currently in the table.
 """
 from __future__ import annotations
 
@@ -19,10 +24,11 @@ from vf.rec import Rec
 
 ID = 'C10'
 LEVEL = 'exploration'
-TECHNIQUE = 'bounded exhaustive enumeration of integrands x R x N x draw-variable sets x generators on the real engine vs a plain-Python mean over the logged draw series; closed forms for Integrate; hyper-dual derivatives for Derive'
+TECHNIQUE = 'bounded exhaustive enumeration of integrands x R x N x draw-variable sets x generators on the real engine, and of edit/use histories on one live model, vs a plain-Python mean over the logged draw series; closed forms for Integrate; hyper-dual derivatives for Derive'
 RULE = ('one case = one (integrand, draw-variable set, R, N, parameter point) Monte-Carlo evaluation, one (native type, seed) reproducibility run, '
-        'one (integrand, parameter) integral, or one (formula, name) derivative. Non-trivial = the formula contains at least one draw variable / the '
-        'random variable / depends on the derived name; distinct = distinct tuples.')
+        'one (integrand, parameter) integral, one (formula, name) derivative, or one history (sequence of table edits through the Database interface, '
+        'other evaluations on the same database and uses of one live model, every use checked). Non-trivial = the formula contains at least one draw variable / the '
+        'random variable / depends on the derived name / the history holds at least one operation that is not an observation; distinct = distinct tuples.')
 ASSUMPTIONS = [
     'Integrate is compared with closed forms / an independent Simpson quadrature at tolerance 1e-6 (smooth, normally decaying integrands only)',
     'native draw types are compared through the draw table the database exposes (theDraws): the value must be the mean over exactly those numbers',
@@ -36,7 +42,12 @@ DATA = [
     dict(x1=[1.0, 2.0, 0.5], x2=[-1.0, 0.5, 2.0], k=[0, 1, 2]),
     dict(x1=[0.5, 1.5, 2.5], x2=[1.0, -0.5, 0.25], k=[2, 0, 1]),
 ][_SEED % 2]
+# rows 3 and 4 and the row identifier 'rid' are used by the table-edit histories only (part 'edit')
+for _c, _more in (dict(x1=[4.0, 0.25], x2=[1.5, -2.0], k=[1, 0]), dict(x1=[0.75, 3.0], x2=[-1.5, 2.0], k=[0, 2]))[_SEED % 2].items():
+    DATA[_c] = DATA[_c] + _more
+DATA['rid'] = [0, 1, 2, 3, 4]
 COLS = ['x2', 'k', 'x1']
+EDIT_COLS = ['x2', 'rid', 'k', 'x1']
 PARAMS = [dict(b1=0.5, b2=-0.75, s=0.25), dict(b1=-0.25, b2=0.5, s=1.0)]
 if (_SEED // 2) % 2:
     PARAMS = [dict(b1=1.0, b2=0.25, s=-0.5), dict(b1=0.75, b2=-1.25, s=0.125)]
@@ -92,12 +103,13 @@ def close(a, b, rel=1e-10):
     return a == b or abs(a - b) <= 1e-13 + rel * max(abs(a), abs(b))
 
 
-def make_db(nobs, log):
+def make_db(nobs, log, cols=None):
     import numpy as np
     from vf.engine import make_db as mk
 
-    rows = [{c: float(DATA[c][i]) for c in COLS} for i in range(nobs)]
-    db = mk(rows, COLS)
+    cols = cols or COLS
+    rows = [{c: float(DATA[c][i]) for c in cols} for i in range(nobs)]
+    db = mk(rows, cols)
 
     def gen(typ, shift=0.0):
         def g(n, r_):
@@ -152,6 +164,45 @@ def tasks(tier, seed):
     t.append(dict(part='refusals'))
     t.append(dict(part='integrate', tier=tier))
     t.append(dict(part='derive'))
+    t.extend(edit_tasks(tier))
+    return t
+
+
+# ---- histories on ONE live model object while the table is edited through the Database interface -------------------------
+# operations: rm0 / rmL = Database.remove of the first / last remaining observation, scale = Database.scale_column on a column
+# the integrands read, addcol = Database.add_column, alone = another Monte-Carlo formula (other draw variables, R + 1 draws)
+# evaluated on its own on the same database; observations: sim = BIOGEME.simulate (all formulas), ll = calculate_likelihood,
+# lld = calculate_likelihood_and_derivatives (value)
+# other = a SECOND live model on the same database (another formula, R + 1 draws), built at its first use, simulated at each
+EDIT_OPS = ['rm0', 'rmL', 'scale', 'addcol', 'alone', 'other']
+EDIT_OPS_REDUCED = ['rm0', 'rmL', 'scale']
+EDIT_LAYOUTS = {
+    # draw variables of the log likelihood / of the simulated formula / of the formula evaluated alone
+    'A': dict(ll=['a_second'], v=['z_first', 'M_third'], vkind='linear', alone=['M_third', 'a_second']),
+    'B': dict(ll=['M_third', 'z_first'], v=['a_second'], vkind='product', alone=['z_first']),
+}
+
+
+def edit_tasks(tier):
+    # (layout, N, R, operations, observations, depth); every history ends with an observation, every observation met on the
+    # way is checked, so depth d subsumes the shorter histories
+    obs2, obs3 = ['sim', 'll'], ['sim', 'll', 'lld']
+    deep = [('A', 4, 2)] if tier == 'quick' else [('A', 4, 2), ('B', 5, 3), ('A', 3, 3), ('B', 2, 3), ('A', 5, 2), ('B', 3, 1)]
+    cfgs = [(lay, n, r, EDIT_OPS, obs2 if tier == 'quick' else obs3, 4) for lay, n, r in deep]
+    if tier == 'quick':
+        grid = [('B', 5, 3), ('A', 3, 3), ('B', 2, 3), ('A', 5, 2), ('B', 3, 1), ('A', 2, 4)]
+    else:
+        grid = [(lay, n, r) for n in (2, 3, 4, 5) for r in (1, 2, 3, 4) for lay in 'AB']
+    cfgs += [(lay, n, r, EDIT_OPS, obs3, 3) for lay, n, r in grid if (lay, n, r) not in deep]
+    # longer histories over the operations that change the content of the table
+    if tier == 'quick':
+        cfgs.append(('B', 4, 2, EDIT_OPS_REDUCED, obs2, 4))
+    else:
+        cfgs += [('B', 4, 2, EDIT_OPS_REDUCED, obs2, 5), ('A', 5, 2, EDIT_OPS_REDUCED, obs2, 5), ('B', 5, 3, EDIT_OPS_REDUCED, obs2, 6)]
+    t = []
+    for lay, n, r, ops, obs, depth in cfgs:
+        for prefix in itertools.product(ops + obs, repeat=max(1, depth - (2 if len(ops + obs) >= 7 else 3))):
+            t.append(dict(part='edit', layout=lay, nobs=n, R=r, ops=list(ops), obs=list(obs), depth=depth, prefix=list(prefix)))
     return t
 
 
@@ -182,6 +233,8 @@ def run_task(task):
         _integrate(task, rec)
     elif part == 'derive':
         _derive(rec)
+    elif part == 'edit':
+        _edit(task, rec)
     return rec.result()
 
 
@@ -660,9 +713,146 @@ def _derive(rec):
     rec.sample(dict(part='derive', formulas=list(pool)))
 
 
+def _edit(task, rec):
+    """Histories on one (database, live BIOGEME object) pair.  The model holds a log likelihood and a simulated formula, each a
+    Monte-Carlo integral over its own draw variables, plus a formula without draws.  Whatever was done to the table through
+    the Database interface, and whatever was evaluated on the database in between, every later use of the model must return,
+    for each observation CURRENTLY in the table (i-th position), the mean over the R draws of the model of the integrand
+    with each draw variable replaced by series[i, r] of its own type."""
+    import numpy as np
+    from biogeme.expressions import Variable
+    from vf.engine import make_biogeme
+
+    lay = EDIT_LAYOUTS[task['layout']]
+    n0, Rn = task['nobs'], task['R']
+    obs = list(task['obs'])
+    alphabet = list(task['ops']) + obs
+    if task.get('only') is not None:
+        hists = [tuple(task['only'])]
+    else:
+        prefix = tuple(task['prefix'])
+        hists = [prefix + suf for suf in itertools.product(alphabet, repeat=task['depth'] - len(prefix)) if suf[-1] in obs]
+    spec = {nm: (v, None, None, 0) for nm, v in PARAMS[0].items()}
+    p = PARAMS[1]        # a point that differs from the initial values of the parameters
+    forms = {
+        'v': ('mc', integrands(lay['v'])[lay['vkind']]),
+        'log_like': ('log', ('mc', integrands(lay['ll'])['exp'])),
+        'w': ('*', V('x1'), B('s')),
+    }
+    alone_form = ('mc', integrands(lay['alone'])['linear'])
+
+    def ref(formula, rows, nd):
+        used = R.leaves(formula, 'draw')
+        return [R.evaluate(formula, row=row, params=p, draws={nm: [PATTERN[DRAWS[nm]](i, r) for r in range(nd)] for nm in used})
+                for i, row in enumerate(rows)]
+
+    def same(got, want):
+        return len(got) == len(want) and all(close(g, w, 1e-9) for g, w in zip(got, want))
+
+    cfg = (task['layout'], n0, Rn)
+    for h in hists:
+        case = dict(task, only=list(h))
+        db, rows = make_db(n0, [], EDIT_COLS)
+        rows = [dict(r) for r in rows]
+        last_edit, nadd, observed, skipped, other = 'none', 0, [], False, None
+
+        def bad(clause, entry, what, want=None, got=None):
+            rec.violation(f'C10|{clause}|live-model:after-{last_edit}:{entry}',
+                          f'{what} [layout {task["layout"]}: log_like over {lay["ll"]}, v over {lay["v"]}; N0={n0} R={Rn}; history {list(h)}, '
+                          f'{len(rows)} observations now]', case, expected=want, observed=got)
+
+        step = -1
+        try:
+            b = make_biogeme(db, {k: R.Builder(spec).build(f) for k, f in forms.items()}, number_of_draws=Rn)
+            x = np.array([p[nm] for nm in b.free_beta_names], dtype=float)
+            betas = {nm: p[nm] for nm in b.free_beta_names}
+            failed = False
+            for step, op in enumerate(h):
+                if op in ('rm0', 'rmL'):
+                    if len(rows) == 1:
+                        skipped = True       # removing the last observation: the table would be empty (refused by the library)
+                        break
+                    target = rows[0 if op == 'rm0' else -1]
+                    db.remove(Variable('rid') == target['rid'])
+                    rows.remove(target)
+                    last_edit = 'rows-removed'       # the label of the finding: the latest edit of the content of the table, if any
+                elif op == 'scale':
+                    db.scale_column('x1', 0.5)
+                    for r_ in rows:
+                        r_['x1'] *= 0.5
+                    last_edit = 'column-scaled'
+                elif op == 'addcol':
+                    db.add_column(Variable('x2') * 2.0, f'extra{nadd}')
+                    nadd += 1
+                    if last_edit in ('none', 'other-formula-evaluated'):
+                        last_edit = 'column-added'
+                elif op == 'other':
+                    if last_edit == 'none':
+                        last_edit = 'other-formula-evaluated'
+                    if other is None:
+                        other = make_biogeme(db, {'o': R.Builder(spec).build(alone_form)}, number_of_draws=Rn + 1)
+                    got = [float(v) for v in other.simulate({nm: p[nm] for nm in other.free_beta_names})['o']]
+                    want = ref(alone_form, rows, Rn + 1)
+                    observed.append(('other', [round(v, 9) for v in got]))
+                    if not same(got, want):
+                        bad('monte-carlo-value-not-mean-over-own-series', 'second-model-on-the-same-database',
+                            f'step {step}: a second model over {lay["alone"]} with R={Rn + 1} simulates {got}, expected {want}', want, got)
+                        failed = True
+                elif op == 'alone':
+                    if last_edit == 'none':
+                        last_edit = 'other-formula-evaluated'
+                    got = [float(v) for v in R.Builder(spec).build(alone_form).get_value_c(database=db, betas=dict(p), number_of_draws=Rn + 1,
+                                                                                          prepare_ids=True)]
+                    want = ref(alone_form, rows, Rn + 1)
+                    observed.append(('alone', [round(v, 9) for v in got]))
+                    if not same(got, want):
+                        bad('monte-carlo-value-not-mean-over-own-series', 'formula-evaluated-alone',
+                            f'step {step}: a formula over {lay["alone"]} evaluated alone with R={Rn + 1} gave {got}, expected {want}', want, got)
+                        failed = True
+                elif op == 'sim':
+                    out = b.simulate(betas)
+                    for k, f in forms.items():
+                        got = [float(v) for v in out[k]]
+                        want = ref(f, rows, Rn)
+                        observed.append((k, [round(v, 9) for v in got]))
+                        if not same(got, want):
+                            bad('monte-carlo-value-not-mean-over-own-series' if k != 'w' else 'formula-without-draws-value', 'BIOGEME.simulate',
+                                f'step {step}: simulate gives {k} = {got}, expected {want}', want, got)
+                            failed = True
+                            break
+                else:
+                    if op == 'll':
+                        got = float(b.calculate_likelihood(x, scaled=False))
+                    else:
+                        got = float(b.calculate_likelihood_and_derivatives(x, scaled=False, hessian=False, bhhh=False).function)
+                    want = sum(ref(forms['log_like'], rows, Rn))
+                    observed.append((op, round(got, 9)))
+                    if not close(got, want, 1e-9):
+                        bad('monte-carlo-value-not-mean-over-own-series',
+                            'BIOGEME.calculate_likelihood' + ('_and_derivatives' if op == 'lld' else ''),
+                            f'step {step}: log likelihood {got!r}, expected {want!r} = sum over the {len(rows)} observations', want, got)
+                        failed = True
+                if failed:
+                    break
+        except Exception as e:
+            rec.case((cfg, h), ('raised', type(e).__name__, step), outcome='raised')
+            bad(f'raised-{type(e).__name__}', 'history', f'step {step}: {str(e)[:200]}')
+            rec.retire = True
+            return
+        if skipped:
+            rec.count('edit_history_would_empty_the_table_not_explored')
+            continue
+        nedits = sum(1 for o in h if o not in obs)
+        rec.case((cfg, h) if nedits else None, (cfg, h, observed), outcome=('edit', last_edit, len(rows) == Rn))
+    rec.sample(dict(part='edit', layout=task['layout'], nobs=n0, R=Rn, depth=task['depth'], first_history=list(hists[0]), histories=len(hists)))
+
+
 def replay(case):
     rec = Rec()
     part = case['part']
+    if part == 'edit':
+        _edit(case, rec)
+        return rec.violations
     if part == 'mc':
         _mc(case, rec)
         rec.violations = [v for v in rec.violations if v['case'].get('formula') == case.get('formula')] or rec.violations
